@@ -1,6 +1,12 @@
 package c14
 
 import (
+	"bytes"
+	"encoding/json"
+	"fmt"
+	"math"
+	"os"
+	"os/exec"
 	"testing"
 
 	"pgregory.net/rapid"
@@ -8,7 +14,13 @@ import (
 	"verif/harness/simref"
 )
 
-func TestMain(m *testing.M) { pbt.Main(m, "C14") }
+func TestMain(m *testing.M) {
+	if os.Getenv("VERIF_C14_SERVE") != "" {
+		serve()
+		return
+	}
+	pbt.Main(m, "C14")
+}
 
 type HistStep struct {
 	SameObject bool // run on the object that will be re-used (same model, other parameters/inputs)
@@ -24,6 +36,11 @@ type Case struct {
 	// OwnInit: every run of this case starts from the states the model object itself hands out (InitialiseStates),
 	// as ow-single and the C entry point do, instead of a state row built by the harness
 	OwnInit bool `json:",omitempty"`
+	// Siblings (when non-empty): a calibration loop.  Variants of A that differ in ONE parameter (scaled by 1-1/1024)
+	// are run first, on fresh objects, then A itself; the result must be bit-identical to A run in a process of
+	// its own (this test binary re-executed).  A cache in a package-level variable keyed by too few of the
+	// parameters shows here and nowhere else: within one process the first caller's value is simply reused.
+	Siblings []int `json:",omitempty"`
 }
 
 func genFor(model string) func(t *rapid.T) Case {
@@ -65,6 +82,21 @@ func genFor(model string) func(t *rapid.T) Case {
 				}
 			}
 		}
+		if len(simref.New(name).Description().Dimensions) == 0 && rapid.IntRange(0, 9).Draw(t, "calibration") == 0 {
+			var elig []int
+			for i, v := range c.A.Cell {
+				if len(v) == 1 && v[0] != 0 && v[0] != math.Floor(v[0]) {
+					elig = append(elig, i)
+				}
+			}
+			if len(elig) > 0 {
+				for k := rapid.IntRange(1, 3).Draw(t, "nsib"); k > 0; k-- {
+					c.Siblings = append(c.Siblings, elig[rapid.IntRange(0, len(elig)-1).Draw(t, "sib")])
+				}
+				c.A.State = simref.StateSpec{}
+				c.Hist = nil
+			}
+		}
 		c.Truncate = rapid.Bool().Draw(t, "truncate")
 		c.OwnInit = rapid.IntRange(0, 2).Draw(t, "ownInit") == 0
 		if !c.Truncate && c.Cut < T-1 {
@@ -74,7 +106,85 @@ func genFor(model string) func(t *rapid.T) Case {
 	}
 }
 
+type served struct {
+	Out [][]uint64
+	Fin []uint64
+}
+
+// serve: run one cell case in this (fresh) process and print the result bit for bit.
+func serve() {
+	var a simref.CellCase
+	if err := json.NewDecoder(os.Stdin).Decode(&a); err != nil {
+		fmt.Fprintln(os.Stderr, "serve:", err)
+		os.Exit(3)
+	}
+	out, fin := simref.Run1(a.Model, a.Cell, a.Inputs, simref.InitStates(a.Model, a.Cell))
+	var s served
+	for _, o := range out {
+		row := make([]uint64, len(o))
+		for i, v := range o {
+			row[i] = math.Float64bits(v)
+		}
+		s.Out = append(s.Out, row)
+	}
+	for _, v := range fin {
+		s.Fin = append(s.Fin, math.Float64bits(v))
+	}
+	json.NewEncoder(os.Stdout).Encode(s)
+	os.Exit(0)
+}
+
+func checkCalibration(c Case) (r pbt.Result) {
+	name := c.A.Model
+	desc := simref.New(name).Description()
+	r.Label("model:" + name)
+	r.Label("calibration-loop-vs-fresh-process")
+	r.NonTrivial = true
+	for _, pi := range c.Siblings {
+		cell := make(simref.Cell, len(c.A.Cell))
+		for i, v := range c.A.Cell {
+			cell[i] = append([]float64(nil), v...)
+		}
+		cell[pi][0] *= 1 - 1.0/1024
+		simref.Run1(name, cell, c.A.Inputs, simref.InitStates(name, cell))
+	}
+	out, fin := simref.Run1(name, c.A.Cell, c.A.Inputs, simref.InitStates(name, c.A.Cell))
+	in, _ := json.Marshal(simref.CellCase{Model: name, Cell: c.A.Cell, Inputs: c.A.Inputs})
+	cmd := exec.Command(os.Args[0])
+	cmd.Env = append(os.Environ(), "VERIF_C14_SERVE=1")
+	cmd.Stdin = bytes.NewReader(in)
+	var so, se bytes.Buffer
+	cmd.Stdout, cmd.Stderr = &so, &se
+	if err := cmd.Run(); err != nil {
+		r.Failf("%s: the case cannot be run in a process of its own: %v; stderr: %.400s", name, err, se.String())
+		return
+	}
+	var ref served
+	if err := json.Unmarshal(so.Bytes(), &ref); err != nil {
+		r.Failf("INFRASTRUCTURE: answer of the fresh process: %v (%.200s)", err, so.String())
+		return
+	}
+	for o := range out {
+		for t := range out[o] {
+			if math.Float64bits(out[o][t]) != ref.Out[o][t] {
+				r.Failf("%s: after runs with parameter(s) %v changed by 1/1024, output %s[t=%d] = %v; the same case in a process of its own gives %v", name, c.Siblings, desc.Outputs[o], t, out[o][t], math.Float64frombits(ref.Out[o][t]))
+				return
+			}
+		}
+	}
+	for j := range fin {
+		if math.Float64bits(fin[j]) != ref.Fin[j] {
+			r.Failf("%s: after runs with parameter(s) %v changed by 1/1024, final state %d = %v; the same case in a process of its own gives %v", name, c.Siblings, j, fin[j], math.Float64frombits(ref.Fin[j]))
+			return
+		}
+	}
+	return
+}
+
 func check(c Case) (r pbt.Result) {
+	if len(c.Siblings) > 0 {
+		return checkCalibration(c)
+	}
 	name := c.A.Model
 	desc := simref.New(name).Description()
 	r.Label("model:" + name)
